@@ -361,6 +361,18 @@ def run(ctx):
         r7.ok("all-paths", "%d option-on paths agree with the old-order rule list" % n7)
     r7.floor(1, "all-paths")
 
+    # ---------------- R8 the option is the value the front end set
+    r8 = chk.rule("C14.R8", "the old vowel-sign order option (and every option consulted with it on) is a plain stored value",
+                  "with the old vowel-sign order option on … — 'the option' is the value the front end set, whatever the other options are")
+    common.plain_options(r8, prog, sorted({a[1] for s in on for a, v in s.atoms if a[0] == "cfg"} | {"get_fixed_old_kar_order"}))
+    r8.floor(1, "the option itself")
+
+    # ---------------- R9 the session query and back-space reach the method object
+    r9 = chk.rule("C14.R9", "the context's session query, key and back-space entry points delegate to the method object (C API included)",
+                  "a sign waiting for its consonant counts as an ongoing session, and is discarded by one backspace — as observed through the context / C API")
+    common.context_delegation(r9, prog, ["ongoing_input_session", "backspace_event", "get_suggestion"])
+    r9.floor(3, "three entry points")
+
     # ---------------- R3 not shown / session / one back-space
     r3 = chk.rule("C14.R3", "the pending sign is never rendered, counts as session, and is discarded by one back-space without a pop",
                   "a sign waiting for its consonant is not shown, counts as an ongoing session, and is discarded by one backspace")
